@@ -24,6 +24,8 @@ use std::os::raw::c_int;
 
 const P: &str = "C20";
 
+mod callbacks;
+
 pub fn run(args: Vec<String>) -> i32 {
     dnp3::verif::run_with(args, |a| match a.check.as_str() {
         "c20" => c20(a),
@@ -2140,6 +2142,15 @@ fn c20(a: &ShardArgs) -> Result<(), String> {
         structs(a);
     }
     differential(a);
+    // K: the callback adapters (every shard a different slice of the random cases)
+    {
+        let mut r = a.rng(&format!("c20/callbacks/{}", a.shard));
+        let rounds = if cfg!(miri) { 4 } else { a.n(40) as usize };
+        callbacks::read_handler_adapter(a, &mut r, rounds);
+        if !cfg!(miri) && (a.shard == 0 || a.replay.is_some()) {
+            callbacks::association_adapters(a, &mut r);
+        }
+    }
     for p in dnp3::verif::util::take_panics() {
         out::violation(
             P,
